@@ -343,45 +343,61 @@ Qed.
 Definition W (ci : bool) (v : fvalue) : N :=
   match size_field_length ci v with Ok n => n | Err _ => 0%N end.
 
-Definition ffl_expect (w : fvalue -> N) (keys : list str) (p : para) : list (str * N) :=
-  flat_map (fun k => match para_get k p with Some v => [(k, w v)] | None => [] end) keys.
-
-Definition width_fun (c : cls) (b : behav) (ci : bool) : option (fvalue -> N) :=
+(** the entry recorded for a present field holding [v] ([None]: no entry) *)
+Definition ffl_entry (c : cls) (b : behav) (ci : bool) (v : fvalue) : option N :=
   match ffl_kind c with
   | None => None
-  | Some FflPdiff => Some (W ci)
-  | Some FflRelease => Some (match b with Apt => fun _ => release_fixed_width | Dak => W ci end)
+  | Some FflPdiff => if has_keys v then None else Some (W ci v)
+  | Some FflRelease => Some (match b with Apt => release_fixed_width | Dak => W ci v end)
   end.
 
-Definition ffl_model (c : cls) (b : behav) (ci : bool) (p : para) : option (list (str * N)) :=
-  option_map (fun w => ffl_expect w (map fst (table_of c)) p) (width_fun c b ci).
+(** does computing that entry call [_get_size_field_length] on [v]? *)
+Definition ffl_measures (c : cls) (b : behav) (v : fvalue) : bool :=
+  match ffl_kind c with
+  | None => false
+  | Some FflPdiff => negb (has_keys v)
+  | Some FflRelease => match b with Apt => false | Dak => true end
+  end.
 
-(** every PRESENT structured field is a list whose records all carry a size *)
-Definition sized_ok (c : cls) (ci : bool) (p : para) : Prop :=
-  ffl_kind c <> None ->
+Definition ffl_expect (w : fvalue -> option N) (keys : list str) (p : para) : list (str * N) :=
+  flat_map (fun k => match para_get k p with
+                     | Some v => match w v with Some n => [(k, n)] | None => [] end
+                     | None => []
+                     end) keys.
+
+Definition ffl_model (c : cls) (b : behav) (ci : bool) (p : para) : option (list (str * N)) :=
+  match ffl_kind c with
+  | None => None
+  | Some _ => Some (ffl_expect (ffl_entry c b ci) (map fst (table_of c)) p)
+  end.
+
+(** whenever [_get_size_field_length] is called on a PRESENT structured field, that
+    field is a list whose records all carry a size *)
+Definition sized_ok (c : cls) (b : behav) (ci : bool) (p : para) : Prop :=
   forall k v, In k (map fst (table_of c)) -> para_get k p = Some v ->
-    has_keys v = false /\ is_ok (size_field_length ci v) = true.
+    ffl_measures c b v = true -> is_ok (size_field_length ci v) = true.
 
 Lemma W_ok ci v : is_ok (size_field_length ci v) = true -> size_field_length ci v = Ok (W ci v).
 Proof. unfold W. destruct (size_field_length ci v); [reflexivity|discriminate]. Qed.
 
 Lemma ffl_pdiff_expect ci p : forall keys,
-  (forall k v, In k keys -> para_get k p = Some v ->
-     has_keys v = false /\ is_ok (size_field_length ci v) = true) ->
-  ffl_pdiff ci keys p = Ok (ffl_expect (W ci) keys p).
+  (forall k v, In k keys -> para_get k p = Some v -> has_keys v = false ->
+     is_ok (size_field_length ci v) = true) ->
+  ffl_pdiff ci keys p
+  = Ok (ffl_expect (fun v => if has_keys v then None else Some (W ci v)) keys p).
 Proof.
   induction keys as [|k keys IH]; intros H; [reflexivity|].
   cbn [ffl_pdiff ffl_expect flat_map].
-  assert (IH' : ffl_pdiff ci keys p = Ok (ffl_expect (W ci) keys p)).
+  assert (IH' : ffl_pdiff ci keys p
+                = Ok (ffl_expect (fun v => if has_keys v then None else Some (W ci v)) keys p)).
   { apply IH. intros k' v' Hin. apply H. now right. }
-  destruct (para_get k p) as [v|] eqn:E.
-  - destruct (H k v (or_introl eq_refl) E) as [Hk Hs].
-    rewrite Hk, (W_ok ci v Hs). cbn [bind]. rewrite IH'. reflexivity.
-  - exact IH'.
+  destruct (para_get k p) as [v|] eqn:E; [|exact IH'].
+  destruct (has_keys v) eqn:Hk; [exact IH'|].
+  rewrite (W_ok ci v (H k v (or_introl eq_refl) E Hk)). cbn [bind]. rewrite IH'. reflexivity.
 Qed.
 
 Lemma ffl_release_apt_expect ci p : forall keys,
-  ffl_release Apt ci keys p = Ok (ffl_expect (fun _ => release_fixed_width) keys p).
+  ffl_release Apt ci keys p = Ok (ffl_expect (fun _ => Some release_fixed_width) keys p).
 Proof.
   induction keys as [|k keys IH]; [reflexivity|].
   cbn [ffl_release ffl_expect flat_map]. rewrite IH.
@@ -390,11 +406,11 @@ Qed.
 
 Lemma ffl_release_dak_expect ci p : forall keys,
   (forall k v, In k keys -> para_get k p = Some v -> is_ok (size_field_length ci v) = true) ->
-  ffl_release Dak ci keys p = Ok (ffl_expect (W ci) keys p).
+  ffl_release Dak ci keys p = Ok (ffl_expect (fun v => Some (W ci v)) keys p).
 Proof.
   induction keys as [|k keys IH]; intros H; [reflexivity|].
   cbn [ffl_release ffl_expect flat_map].
-  assert (IH' : ffl_release Dak ci keys p = Ok (ffl_expect (W ci) keys p)).
+  assert (IH' : ffl_release Dak ci keys p = Ok (ffl_expect (fun v => Some (W ci v)) keys p)).
   { apply IH. intros k' v' Hin. apply H. now right. }
   destruct (para_get k p) as [v|] eqn:E.
   - rewrite (W_ok ci v (H k v (or_introl eq_refl) E)). cbn [bind]. rewrite IH'. reflexivity.
@@ -402,37 +418,47 @@ Proof.
 Qed.
 
 Lemma fixed_field_lengths_model c b ci p :
-  sized_ok c ci p -> fixed_field_lengths c b ci p = Ok (ffl_model c b ci p).
+  sized_ok c b ci p -> fixed_field_lengths c b ci p = Ok (ffl_model c b ci p).
 Proof.
-  intros H. unfold fixed_field_lengths, ffl_model, width_fun, sized_ok in *.
+  intros H. unfold fixed_field_lengths, ffl_model, ffl_entry, sized_ok, ffl_measures in *.
   destruct (ffl_kind c) as [[|]|]; [| |reflexivity].
-  - rewrite ffl_pdiff_expect; [reflexivity|]. intros k v. apply H. discriminate.
+  - rewrite ffl_pdiff_expect; [reflexivity|].
+    intros k v Hin Hg Hk. apply (H k v Hin Hg). now rewrite Hk.
   - destruct b.
     + rewrite ffl_release_apt_expect. reflexivity.
     + rewrite ffl_release_dak_expect; [reflexivity|].
-      intros k v Hin Hg. now apply (H ltac:(discriminate) k v).
+      intros k v Hin Hg. now apply (H k v).
 Qed.
 
 Lemma ffl_expect_lookup w p : forall keys k v,
-  In k keys -> para_get k p = Some v -> lookup_exact k (ffl_expect w keys p) = Some (w v).
+  In k keys -> para_get k p = Some v -> lookup_exact k (ffl_expect w keys p) = w v.
 Proof.
-  induction keys as [|k0 keys IH]; intros k v Hin Hg; [contradiction|].
-  cbn [ffl_expect flat_map]. destruct (para_get k0 p) as [v0|] eqn:E0.
-  - cbn [app lookup_exact]. destruct (str_eqb k0 k) eqn:E.
-    + apply str_eqb_eq in E. subst k0. congruence.
-    + apply IH; [|assumption]. destruct Hin as [->|]; [|assumption].
-      now rewrite str_eqb_refl in E.
-  - cbn [app]. apply IH; [|assumption]. destruct Hin as [->|]; [congruence|assumption].
+  intros keys k v Hin Hg. destruct (w v) as [n|] eqn:Ew.
+  - revert Hin. induction keys as [|k0 keys IH]; intros Hin; [contradiction|].
+    cbn [ffl_expect flat_map]. destruct (str_eqb k0 k) eqn:E.
+    + apply str_eqb_eq in E. subst k0. rewrite Hg, Ew. cbn [app lookup_exact].
+      now rewrite str_eqb_refl.
+    + assert (Hin' : In k keys).
+      { destruct Hin as [->|]; [now rewrite str_eqb_refl in E|assumption]. }
+      destruct (para_get k0 p) as [v0|]; [|now apply IH].
+      destruct (w v0); [|now apply IH]. cbn [app lookup_exact]. rewrite E. now apply IH.
+  - clear Hin. induction keys as [|k0 keys IH]; [reflexivity|].
+    cbn [ffl_expect flat_map]. destruct (para_get k0 p) as [v0|] eqn:E0; [|exact IH].
+    destruct (w v0) as [n0|] eqn:Ew0; [|exact IH]. cbn [app lookup_exact].
+    destruct (str_eqb k0 k) eqn:E; [|exact IH].
+    apply str_eqb_eq in E. subst k0. congruence.
 Qed.
 
 (** The width [get_as_string] uses for the field stored under table key [k]. *)
 Lemma ffl_model_lookup c b ci p k v :
   In k (map fst (table_of c)) -> para_get k p = Some v ->
   match ffl_model c b ci p with Some l => lookup_exact k l | None => None end
-  = option_map (fun w => w v) (width_fun c b ci).
+  = ffl_entry c b ci v.
 Proof.
-  intros Hin Hg. unfold ffl_model. destruct (width_fun c b ci) as [w|]; [|reflexivity].
-  cbn [option_map]. now apply ffl_expect_lookup.
+  intros Hin Hg. unfold ffl_model.
+  destruct (ffl_kind c) eqn:Ek.
+  - now apply ffl_expect_lookup.
+  - unfold ffl_entry. now rewrite Ek.
 Qed.
 
 (** * 5. [get_as_string] prints the documented text *)
@@ -587,7 +613,7 @@ Qed.
 Lemma width_agrees c b ci k order row rows :
   In (k, order) (table_of c) ->
   forallb (row_ok order) (row :: rows) = true ->
-  option_map (fun w => w (Multi (spec_records order (row :: rows)))) (width_fun c b ci)
+  ffl_entry c b ci (Multi (spec_records order (row :: rows)))
   = option_map N.of_nat (spec_width c b order (row :: rows)).
 Proof.
   intros Hin Hrows.
@@ -600,8 +626,8 @@ Proof.
                W ci (Multi (spec_records order (row :: rows)))
                = N.of_nat (longest (sizes_of order (row :: rows)))).
   { intros Hk. unfold W. rewrite size_field_length_rows; auto. }
-  unfold width_fun, spec_width, width_rule_of.
-  destruct c; cbn [ffl_kind option_map] in *; try reflexivity.
+  unfold ffl_entry, spec_width, width_rule_of.
+  destruct c; cbn [ffl_kind option_map has_keys] in *; try reflexivity.
   - rewrite HW by discriminate. reflexivity.
   - destruct b; cbn [option_map]; [reflexivity|]. rewrite HW by discriminate. reflexivity.
 Qed.
@@ -616,7 +642,7 @@ Lemma get_as_string_rows c b ci p key order row rows :
   lookup_exact (ascii_lower key) (table_of c) = Some order ->
   para_get key p = Some (Multi (spec_records order (row :: rows))) ->
   forallb (row_ok order) (row :: rows) = true ->
-  sized_ok c ci p ->
+  sized_ok c b ci p ->
   get_as_string c b ci p key = Ok (spec_value c b order (row :: rows)).
 Proof.
   intros Hlook Hget Hrows Hsized.
@@ -748,10 +774,12 @@ Proof.
 Qed.
 
 (** a paragraph of the domain never makes [_fixed_field_lengths] fail *)
-Lemma in_domain_sized strict c ci p sp :
-  spara_of strict c p = Some sp -> sized_ok c ci p.
+Lemma in_domain_sized strict c b ci p sp :
+  spara_of strict c p = Some sp -> sized_ok c b ci p.
 Proof.
-  intros Hsp Hffl k v Hk Hget.
+  intros Hsp k v Hk Hget Hm.
+  assert (Hffl : ffl_kind c <> None).
+  { unfold ffl_measures in Hm. destruct (ffl_kind c); [discriminate|discriminate Hm]. }
   destruct (para_get_in _ _ _ Hget) as [key' [Hin Heq]].
   destruct (spara_of_in _ _ _ _ _ _ Hsp Hin) as [sv Hsv].
   destruct (lookup_exact_some_of_in _ _ Hk) as [order Hlook].
@@ -762,7 +790,7 @@ Proof.
     rewrite Heq in Hl; [|congruence].
   assert (order' = order) as -> by congruence.
   destruct (order_ok_parts order Hok) as [Hnd [_ Hse]].
-  subst v. split; [reflexivity|].
+  subst v.
   rewrite size_field_length_rows; auto.
   rewrite forallb_forall in *. intros r Hr. specialize (Hrows r Hr).
   destruct (row_ok_parts _ _ Hrows) as [-> _]. apply Nat.eqb_refl.
@@ -792,7 +820,7 @@ Proof. unfold spec_value. cbn [map concat app]. eauto. Qed.
 
 (** One entry of the dump. *)
 Lemma dump_entry strict c b ci P key v sv :
-  sized_ok c ci P -> para_get key P = Some v ->
+  sized_ok c b ci P -> para_get key P = Some v ->
   sval_of strict c key v = Some sv ->
   (do s <- get_as_string c b ci P key; Ok (entry key s)) = Ok (spec_entry c b (key, sv)).
 Proof.
@@ -806,14 +834,17 @@ Proof.
     destruct s as [|ch s]; [reflexivity|]. destruct (ch =? LF)%N; reflexivity.
 Qed.
 
-(** [dump] of a paragraph of the domain is the documented text. *)
-Lemma dump_para_spec c b ci p sp :
-  in_domain c p = Some sp -> dump_para c b ci p = Ok (spec_dump c b sp).
+(** [dump] of a paragraph with distinct field names, whose structured fields hold
+    complete records of whitespace-free tokens ([strict] = false: the other fields are
+    arbitrary strings), is the documented text. *)
+Lemma dump_para_spec_gen strict c b ci p sp :
+  distinct_keys (map fst p) = true -> spara_of strict c p = Some sp ->
+  dump_para c b ci p = Ok (spec_dump c b sp).
 Proof.
-  unfold in_domain. destruct (distinct_keys (map fst p)) eqn:Hd; [|discriminate]. intros Hsp.
-  pose proof (in_domain_sized true c ci p sp Hsp) as Hsized.
+  intros Hd Hsp.
+  pose proof (in_domain_sized strict c b ci p sp Hsp) as Hsized.
   unfold dump_para, spec_dump.
-  assert (G : forall p' sp', spara_of true c p' = Some sp' ->
+  assert (G : forall p' sp', spara_of strict c p' = Some sp' ->
               (forall kv, In kv p' -> In kv p) ->
               mapM (fun kv => do v <- get_as_string c b ci p (fst kv); Ok (entry (fst kv) v)) p'
               = Ok (map (spec_entry c b) sp')).
@@ -821,38 +852,26 @@ Proof.
     - injection Hsp' as <-. reflexivity.
     - destruct (spara_of_cons _ _ _ _ _ _ Hsp') as [sv [sp'' [H1 [H2 ->]]]].
       cbn [mapM map fst].
-      rewrite (dump_entry true c b ci p key v sv Hsized); [|
+      rewrite (dump_entry strict c b ci p key v sv Hsized); [|
         apply para_get_distinct; [assumption|apply Hsub; now left]|assumption].
       cbn [bind]. rewrite (IH sp'' H2); [reflexivity|].
       intros kv Hkv. apply Hsub. now right. }
   rewrite (G p sp Hsp); [reflexivity|auto].
 Qed.
 
+(** [dump] of a paragraph of the domain is the documented text. *)
+Lemma dump_para_spec c b ci p sp :
+  in_domain c p = Some sp -> dump_para c b ci p = Ok (spec_dump c b sp).
+Proof.
+  unfold in_domain. destruct (distinct_keys (map fst p)) eqn:Hd; [|discriminate].
+  now apply dump_para_spec_gen.
+Qed.
+
 (** * 6. [dump] never fails on a paragraph whose PRESENT fields are dumpable *)
 
-(** the record has every sub-field of [order], none containing a line feed *)
-Definition rec_complete (ci : bool) (order : list str) (r : record) : bool :=
-  forallb (fun x => match rec_get ci x r with
-                    | Ok v => negb (mem_char LF v)
-                    | Err _ => false
-                    end) order.
-
-Definition val_dumpable (ci : bool) (order : list str) (v : fvalue) : bool :=
-  match v with
-  | Multi (r :: rs) => forallb (rec_complete ci order) (r :: rs)
-  | _ => false
-  end.
-
-(** Conditions on the entries that ARE there; nothing is asked about the
-    structured fields of the class that are absent. *)
-Definition entry_dumpable (c : cls) (ci : bool) (kv : str * fvalue) : bool :=
-  match lookup_exact (ascii_lower (fst kv)) (table_of c) with
-  | Some order => val_dumpable ci order (snd kv)
-  | None => match snd kv with Plain _ => true | _ => false end
-  end.
-
-Definition para_dumpable (c : cls) (ci : bool) (p : para) : bool :=
-  forallb (entry_dumpable c ci) p.
+Lemma single_breaks_model c b :
+  single_breaks c b = match ffl_kind c, b with Some FflRelease, Dak => true | _, _ => false end.
+Proof. destruct c, b; reflexivity. Qed.
 
 Lemma mapM_length {A B} (f : A -> result B) : forall l bs,
   mapM f l = Ok bs -> length bs = length l.
@@ -885,9 +904,9 @@ Proof.
   apply mapM_length in E. destruct ls; [discriminate|reflexivity].
 Qed.
 
-Lemma dumpable_entry_of_get c ci p k v :
-  para_dumpable c ci p = true -> para_get k p = Some v ->
-  exists key', ascii_lower key' = ascii_lower k /\ entry_dumpable c ci (key', v) = true.
+Lemma dumpable_entry_of_get c b ci p k v :
+  para_dumpable c b ci p = true -> para_get k p = Some v ->
+  exists key', ascii_lower key' = ascii_lower k /\ entry_dumpable c b ci (key', v) = true.
 Proof.
   intros Hd Hget. destruct (para_get_in _ _ _ Hget) as [key' [Hin Heq]].
   unfold para_dumpable in Hd. rewrite forallb_forall in Hd.
@@ -895,16 +914,23 @@ Proof.
   cbn [key_eqb] in Heq. now apply str_eqb_eq in Heq.
 Qed.
 
-Lemma dumpable_sized c ci p : para_dumpable c ci p = true -> sized_ok c ci p.
+Lemma dumpable_sized c b ci p : para_dumpable c b ci p = true -> sized_ok c b ci p.
 Proof.
-  intros Hd Hffl k v Hk Hget.
-  destruct (dumpable_entry_of_get _ _ _ _ _ Hd Hget) as [key' [Hlow He]].
+  intros Hd k v Hk Hget Hm.
+  assert (Hffl : ffl_kind c <> None).
+  { unfold ffl_measures in Hm. destruct (ffl_kind c); [discriminate|discriminate Hm]. }
+  destruct (dumpable_entry_of_get _ _ _ _ _ _ Hd Hget) as [key' [Hlow He]].
   destruct (lookup_exact_some_of_in _ _ Hk) as [order Hlook].
   pose proof (table_lookup_in _ _ _ Hlook) as Hino.
   destruct (table_entry_ok c k order Hino) as [Hlk [_ Hsz]].
   unfold entry_dumpable in He. cbn [fst snd] in He. rewrite Hlow, Hlk, Hlook in He.
-  destruct v as [s|r|[|r rs]]; try discriminate. split; [reflexivity|].
-  apply (size_field_length_complete ci order); auto.
+  destruct v as [s|r|[|r rs]]; try discriminate.
+  - (* single-line form: only where it is not measured *)
+    cbn [val_dumpable] in He. apply andb_true_iff in He. destruct He as [_ He].
+    apply negb_true_iff in He. rewrite single_breaks_model in He. unfold ffl_measures in Hm.
+    cbn [has_keys negb] in Hm. destruct (ffl_kind c) as [[|]|]; try discriminate.
+    destruct b; discriminate.
+  - apply (size_field_length_complete ci order); auto.
 Qed.
 
 Lemma fmt_item_complete ci order len r :
@@ -920,21 +946,28 @@ Proof.
 Qed.
 
 Lemma get_as_string_total c b ci p key v :
-  para_dumpable c ci p = true -> para_get key p = Some v ->
+  para_dumpable c b ci p = true -> para_get key p = Some v ->
   is_ok (get_as_string c b ci p key) = true.
 Proof.
   intros Hd Hget.
-  destruct (dumpable_entry_of_get _ _ _ _ _ Hd Hget) as [key' [Hlow He]].
+  destruct (dumpable_entry_of_get _ _ _ _ _ _ Hd Hget) as [key' [Hlow He]].
   unfold entry_dumpable in He. cbn [fst snd] in He. rewrite Hlow in He.
   unfold get_as_string. rewrite Hget.
   destruct (lookup_exact (ascii_lower key) (table_of c)) as [order|].
-  - destruct v as [s|r|[|r rs]]; try discriminate. cbn [val_dumpable] in He.
-    rewrite (fixed_field_lengths_model c b ci p (dumpable_sized _ _ _ Hd)). cbn [bind].
-    match goal with |- context [mapM ?f ?l] =>
-      assert (G : is_ok (mapM f l) = true) end.
-    { apply mapM_is_ok. intros it Hit. apply in_map_iff in Hit. destruct Hit as [r0 [<- Hr0]].
-      apply fmt_item_complete. rewrite forallb_forall in He. now apply He. }
-    destruct (is_ok_exists _ G) as [lines ->]. reflexivity.
+  - rewrite (fixed_field_lengths_model c b ci p (dumpable_sized _ _ _ _ Hd)).
+    destruct v as [s|r|[|r rs]]; try discriminate; cbn [val_dumpable] in He; cbn [bind].
+    + apply andb_true_iff in He. destruct He as [He _]. cbn [mapM].
+      pose proof (fmt_item_complete ci order
+                    (match ffl_model c b ci p with
+                     | Some l => lookup_exact (ascii_lower key) l
+                     | None => None
+                     end) r He) as G.
+      destruct (is_ok_exists _ G) as [line ->]. reflexivity.
+    + match goal with |- context [mapM ?f ?l] =>
+        assert (G : is_ok (mapM f l) = true) end.
+      { apply mapM_is_ok. intros it Hit. apply in_map_iff in Hit. destruct Hit as [r0 [<- Hr0]].
+        apply fmt_item_complete. rewrite forallb_forall in He. now apply He. }
+      destruct (is_ok_exists _ G) as [lines ->]. reflexivity.
   - destruct v; [reflexivity|discriminate|discriminate].
 Qed.
 
@@ -946,7 +979,7 @@ Proof.
 Qed.
 
 Lemma dump_para_total c b ci p :
-  para_dumpable c ci p = true -> is_ok (dump_para c b ci p) = true.
+  para_dumpable c b ci p = true -> is_ok (dump_para c b ci p) = true.
 Proof.
   intros Hd. unfold dump_para.
   match goal with |- context [mapM ?f ?l] => assert (G : is_ok (mapM f l) = true) end.
@@ -1531,7 +1564,7 @@ Lemma get_as_string_documented c b ci p key order row rows :
   lookup_exact (ascii_lower key) (table_of c) = Some order ->
   para_get key p = Some (Multi (spec_records order (row :: rows))) ->
   forallb (row_ok order) (row :: rows) = true ->
-  para_dumpable c ci p = true ->
+  para_dumpable c b ci p = true ->
   get_as_string c b ci p key = Ok (spec_value c b order (row :: rows)).
 Proof.
   intros Hl Hg Hr Hd. apply get_as_string_rows; auto. now apply dumpable_sized.
@@ -1542,7 +1575,7 @@ Lemma record_roundtrip c b ci p key order row rows :
   lookup_exact (ascii_lower key) (table_of c) = Some order ->
   para_get key p = Some (Multi (spec_records order (row :: rows))) ->
   forallb (row_ok order) (row :: rows) = true ->
-  para_dumpable c ci p = true ->
+  para_dumpable c b ci p = true ->
   exists s, get_as_string c b ci p key = Ok s
             /\ mv_parse_field order s = Multi (spec_records order (row :: rows)).
 Proof.
@@ -1593,7 +1626,7 @@ Proof.
 Qed.
 
 (** a paragraph of the domain is dumpable (so the totality theorem covers it) *)
-Lemma in_domain_dumpable c ci p sp : in_domain c p = Some sp -> para_dumpable c ci p = true.
+Lemma in_domain_dumpable c b ci p sp : in_domain c p = Some sp -> para_dumpable c b ci p = true.
 Proof.
   unfold in_domain. destruct (distinct_keys (map fst p)); [|discriminate]. intros Hsp.
   unfold para_dumpable. rewrite forallb_forall. intros [key v] Hin.
@@ -1647,8 +1680,10 @@ Lemma spec_rows_inv order contents rows :
 Proof.
   unfold spec_rows. destruct contents as [|ch rest]; [discriminate|].
   destruct (ch =? LF)%N; [|discriminate].
-  destruct (forallb _ (split_on LF rest)); [|discriminate]. cbn [andb].
-  destruct (forallb _ (map (split_ws py_isspace) (split_on LF rest))) eqn:Hlen; [|discriminate].
+  destruct (forallb (fun l => negb (existsb py_islinebreak l)) (split_on LF rest)); [|discriminate].
+  cbn [andb].
+  destruct (forallb (fun r => (length r =? length order)%nat)
+                    (map (split_ws py_isspace) (split_on LF rest))) eqn:Hlen; [|discriminate].
   intros [= <-]. repeat split.
   - pose proof (split_on_nonempty LF rest). destruct (split_on LF rest); [congruence|discriminate].
   - exact Hlen.
@@ -1656,43 +1691,258 @@ Proof.
     apply split_ws_no_lf.
 Qed.
 
-(** every structured field present in the text has complete lines (one value per
-    sub-field on each continuation line); nothing is asked about absent fields *)
-Definition raw_ok (c : cls) (raw : list (str * str)) : bool :=
-  forallb (fun kv => match lookup_exact (ascii_lower (fst kv)) (table_of c) with
-                     | Some order => match spec_rows order (snd kv) with Some _ => true | None => false end
-                     | None => true
-                     end) raw.
+(** the single-line form parses to ONE mapping with the documented names *)
+Lemma parse_spec_single order contents toks :
+  nodup_ci order = true -> order <> [] ->
+  spec_single order contents = Some toks ->
+  mv_parse_field order contents = Single (combine order toks).
+Proof.
+  intros Hnd Hne. unfold spec_single.
+  destruct (existsb py_islinebreak contents) eqn:Hlb; [discriminate|].
+  destruct (length (split_ws py_isspace contents) =? length order)%nat eqn:Hlen; [|discriminate].
+  intros [= <-]. apply Nat.eqb_eq in Hlen.
+  assert (Hfree : forallb (fun ch => negb (py_islinebreak ch)) contents = true).
+  { rewrite forallb_forall. intros ch Hch. apply negb_true_iff.
+    destruct (py_islinebreak ch) eqn:E; [|reflexivity].
+    assert (X : existsb py_islinebreak contents = true) by (apply existsb_exists; eauto).
+    congruence. }
+  assert (Hm : mem_char LF contents = false).
+  { unfold mem_char. destruct (existsb (N.eqb LF) contents) eqn:E; [|reflexivity].
+    apply existsb_exists in E. destruct E as [ch [Hin Hch]]. apply N.eqb_eq in Hch. subst ch.
+    rewrite forallb_forall in Hfree. specialize (Hfree _ Hin).
+    now rewrite lf_is_linebreak in Hfree. }
+  assert (Hc : contents <> []).
+  { intros ->. cbn in Hlen. destruct order; [congruence|discriminate]. }
+  unfold mv_parse_field. rewrite Hm. f_equal.
+  assert (Hs : splitlines py_islinebreak false contents = [contents]).
+  { unfold splitlines. rewrite <- (app_nil_r contents) at 1.
+    rewrite splitlines_aux_free by assumption. cbn [splitlines_aux]. rewrite app_nil_r.
+    destruct (rev contents) eqn:E.
+    - apply (f_equal (@length N)) in E. rewrite rev_length in E.
+      destruct contents; [congruence|discriminate].
+    - rewrite <- E. now rewrite rev_involutive. }
+  rewrite Hs. cbn [filter]. destruct contents as [|ch rest]; [congruence|]. cbn [nonempty map fold_left].
+  unfold rec_update. rewrite mk_record_combine by assumption.
+  now rewrite rec_of_pairs_combine.
+Qed.
 
-Lemma parsed_dumpable c raw :
-  raw_ok c raw = true -> para_dumpable c true (map (parse_entry (table_of c)) raw) = true.
+Lemma parsed_dumpable c b raw :
+  raw_ok c b raw = true -> para_dumpable c b true (map (parse_entry (table_of c)) raw) = true.
 Proof.
   intros H. unfold para_dumpable. rewrite forallb_forall. intros e He.
   apply in_map_iff in He. destruct He as [[key s] [<- Hin]].
   unfold raw_ok in H. rewrite forallb_forall in H. specialize (H _ Hin). cbn [fst snd] in H.
+  rewrite spec_order_is_lookup in H.
   unfold entry_dumpable, parse_entry. cbn [fst snd].
   destruct (lookup_exact (ascii_lower key) (table_of c)) as [order|] eqn:Hl; [|reflexivity].
-  destruct (spec_rows order s) as [rows|] eqn:Hr; [|discriminate].
   destruct (table_entry_ok c _ order (table_lookup_in _ _ _ Hl)) as [_ [Hok _]].
   destruct (order_ok_parts order Hok) as [Hnd [Hne _]].
-  rewrite (parse_spec_rows order s rows Hnd Hne Hr).
-  destruct (spec_rows_inv _ _ _ Hr) as [Hrows [Hlen Hlf]].
-  destruct rows as [|row rows]; [congruence|].
-  unfold spec_records. cbn [val_dumpable map].
-  change (combine order row :: map (combine order) rows) with (map (combine order) (row :: rows)).
-  rewrite forallb_forall. intros r Hrr. apply in_map_iff in Hrr. destruct Hrr as [r0 [<- Hr0]].
-  rewrite forallb_forall in Hlen, Hlf.
-  pose proof (Hlen r0 Hr0) as Hl0. apply Nat.eqb_eq in Hl0.
-  exact (rec_get_cols true _ order r0 [] [] Hl0 eq_refl (fun _ _ => eq_refl) Hnd (Hlf r0 Hr0)).
+  destruct (spec_rows order s) as [rows|] eqn:Hr.
+  - rewrite (parse_spec_rows order s rows Hnd Hne Hr).
+    destruct (spec_rows_inv _ _ _ Hr) as [Hrows [Hlen Hlf]].
+    destruct rows as [|row rows]; [congruence|].
+    unfold spec_records. cbn [val_dumpable map].
+    change (combine order row :: map (combine order) rows) with (map (combine order) (row :: rows)).
+    rewrite forallb_forall. intros r Hrr. apply in_map_iff in Hrr. destruct Hrr as [r0 [<- Hr0]].
+    rewrite forallb_forall in Hlen, Hlf.
+    pose proof (Hlen r0 Hr0) as Hl0. apply Nat.eqb_eq in Hl0.
+    exact (rec_get_cols true _ order r0 [] [] Hl0 eq_refl (fun _ _ => eq_refl) Hnd (Hlf r0 Hr0)).
+  - destruct (spec_single order s) as [toks|] eqn:Hs; [|discriminate].
+    rewrite (parse_spec_single order s toks Hnd Hne Hs). cbn [val_dumpable]. rewrite H, andb_true_r.
+    assert (Hlen : length toks = length order /\ toks = split_ws py_isspace s).
+    { unfold spec_single in Hs. destruct (existsb py_islinebreak s); [discriminate|].
+      destruct (length (split_ws py_isspace s) =? length order)%nat eqn:E; [|discriminate].
+      injection Hs as <-. apply Nat.eqb_eq in E. auto. }
+    destruct Hlen as [Hlen ->].
+    exact (rec_get_cols true _ order _ [] [] Hlen eq_refl (fun _ _ => eq_refl) Hnd (split_ws_no_lf s)).
 Qed.
 
 (** [K(text).dump()] raises nothing, for every class, both behaviours, and EVERY subset
     of the class's structured fields being present in the text. *)
 Lemma parsed_dump_total c b raw :
-  distinct_keys (map fst raw) = true -> raw_ok c raw = true ->
+  distinct_keys (map fst raw) = true -> raw_ok c b raw = true ->
   exists q, mv_init (table_of c) raw = Ok q /\ is_ok (dump_para c b true q) = true.
 Proof.
   intros Hd Hok. exists (map (parse_entry (table_of c)) raw). split.
   - now apply mv_init_map.
   - apply dump_para_total. now apply parsed_dumpable.
+Qed.
+
+Lemma in_domain_is_spec c p sp : in_domain c p = Some sp -> para_of_spara c sp = p.
+Proof.
+  unfold in_domain. destruct (distinct_keys (map fst p)); [|discriminate]. intros H.
+  now destruct (in_domain_shapes true c p sp H) as [_ [E _]].
+Qed.
+
+(** Every sub-paragraph (any selection of the fields) of a dumpable paragraph dumps. *)
+Lemma dump_total_subsets c b ci p (keep : str * fvalue -> bool) :
+  para_dumpable c b ci p = true -> is_ok (dump_para c b ci (filter keep p)) = true.
+Proof.
+  intros H. apply dump_para_total. unfold para_dumpable in *.
+  rewrite forallb_forall in *. intros kv Hkv. apply filter_In in Hkv. now apply H.
+Qed.
+
+Lemma parse_single_line c key order contents toks :
+  lookup_exact (ascii_lower key) (table_of c) = Some order ->
+  spec_single order contents = Some toks ->
+  mv_parse_field order contents = Single (combine order toks).
+Proof.
+  intros Hl.
+  destruct (table_entry_ok c _ order (table_lookup_in _ _ _ Hl)) as [_ [Hok _]].
+  destruct (order_ok_parts order Hok) as [Hnd [Hne _]]. now apply parse_spec_single.
+Qed.
+
+(** * 13. "Can always be dumped": dumpability is an invariant of in-place edits *)
+
+Lemma entry_dumpable_key c b ci k k' v :
+  ascii_lower k' = ascii_lower k -> entry_dumpable c b ci (k', v) = entry_dumpable c b ci (k, v).
+Proof. intros H. unfold entry_dumpable. cbn [fst snd]. now rewrite H. Qed.
+
+Lemma para_set_dumpable c b ci k v : forall p,
+  para_dumpable c b ci p = true -> entry_dumpable c b ci (k, v) = true ->
+  para_dumpable c b ci (para_set k v p) = true.
+Proof.
+  unfold para_dumpable. induction p as [|[k' v'] p IH]; intros Hp He.
+  - cbn. now rewrite He.
+  - cbn [forallb] in Hp. apply andb_true_iff in Hp. destruct Hp as [H1 H2].
+    cbn [para_set]. destruct (key_eqb true k' k) eqn:E.
+    + cbn [forallb]. rewrite H2, andb_true_r.
+      rewrite (entry_dumpable_key c b ci k k'); [assumption|].
+      cbn [key_eqb] in E. now apply str_eqb_eq in E.
+    + cbn [forallb]. rewrite H1. now apply IH.
+Qed.
+
+Lemma para_del_dumpable c b ci k : forall p p',
+  para_dumpable c b ci p = true -> para_del k p = Some p' -> para_dumpable c b ci p' = true.
+Proof.
+  unfold para_dumpable. induction p as [|[k' v'] p IH]; intros p' Hp Hd; [discriminate|].
+  cbn [forallb] in Hp. apply andb_true_iff in Hp. destruct Hp as [H1 H2].
+  cbn [para_del] in Hd. destruct (key_eqb true k' k).
+  - now injection Hd as <-.
+  - destruct (para_del k p) as [q|] eqn:E; [|discriminate]. injection Hd as <-.
+    cbn [forallb]. rewrite H1. now apply (IH q).
+Qed.
+
+Lemma set_nth_forallb {A} (P : A -> bool) a : forall i l l',
+  forallb P l = true -> P a = true -> set_nth i a l = Some l' ->
+  forallb P l' = true /\ l' <> [].
+Proof.
+  induction i as [|i IH]; intros [|x l] l' Hl Ha H; try discriminate.
+  - injection H as <-. cbn [forallb] in *. apply andb_true_iff in Hl. destruct Hl as [_ Hl].
+    rewrite Ha, Hl. split; [reflexivity|discriminate].
+  - cbn [set_nth] in H. destruct (set_nth i a l) as [l0|] eqn:E; [|discriminate].
+    injection H as <-. cbn [forallb] in *. apply andb_true_iff in Hl. destruct Hl as [Hx Hl].
+    destruct (IH l l0 Hl Ha E) as [H0 _]. rewrite Hx, H0. split; [reflexivity|discriminate].
+Qed.
+
+(** [r[sub] = v] keeps a complete record complete *)
+Lemma rec_set_complete ci order sub v : forall r,
+  negb (mem_char LF v) = true ->
+  rec_complete ci order r = true -> rec_complete ci order (rec_set ci sub v r) = true.
+Proof.
+  intros r Hv Hr. unfold rec_complete in *. rewrite forallb_forall in *. intros x Hx.
+  specialize (Hr x Hx). clear Hx. revert Hr.
+  induction r as [|[k' v'] r IH]; intros Hr; [discriminate Hr|].
+  cbn [rec_set]. destruct (key_eqb ci k' sub) eqn:E.
+  - cbn [rec_get] in *. destruct (key_eqb ci k' x); [exact Hv|exact Hr].
+  - cbn [rec_get] in *. destruct (key_eqb ci k' x); [exact Hr|now apply IH].
+Qed.
+
+Lemma multi_dumpable c b ci order rs :
+  rs <> [] -> forallb (rec_complete ci order) rs = true ->
+  val_dumpable c b ci order (Multi rs) = true.
+Proof. intros Hne H. destruct rs; [congruence|exact H]. Qed.
+
+Lemma multi_dumpable_inv c b ci order rs :
+  val_dumpable c b ci order (Multi rs) = true ->
+  rs <> [] /\ forallb (rec_complete ci order) rs = true.
+Proof. destruct rs; [discriminate|]. intros H. split; [discriminate|exact H]. Qed.
+
+(** the entry under which [para_get key p] finds a list, seen through [key] *)
+Lemma dumpable_multi_of_get c b ci p key rs :
+  para_dumpable c b ci p = true -> para_get key p = Some (Multi rs) ->
+  exists order, lookup_exact (ascii_lower key) (table_of c) = Some order
+                /\ rs <> [] /\ forallb (rec_complete ci order) rs = true.
+Proof.
+  intros Hd Hg. destruct (dumpable_entry_of_get _ _ _ _ _ _ Hd Hg) as [key' [Hlow He]].
+  unfold entry_dumpable in He. cbn [fst snd] in He. rewrite Hlow in He.
+  destruct (lookup_exact (ascii_lower key) (table_of c)) as [order|]; [|discriminate].
+  exists order. split; [reflexivity|]. now apply (multi_dumpable_inv c b ci).
+Qed.
+
+Lemma set_multi_dumpable c b ci p key order rs' :
+  para_dumpable c b ci p = true ->
+  lookup_exact (ascii_lower key) (table_of c) = Some order ->
+  rs' <> [] -> forallb (rec_complete ci order) rs' = true ->
+  para_dumpable c b ci (para_set key (Multi rs') p) = true.
+Proof.
+  intros Hd Hl Hne Hall. apply para_set_dumpable; [assumption|].
+  unfold entry_dumpable. cbn [fst snd]. rewrite Hl. now apply multi_dumpable.
+Qed.
+
+Lemma edit_preserves_dumpable c b ci p e p' :
+  para_dumpable c b ci p = true -> edit_ok c b ci e = true ->
+  apply_edit c ci p e = Ok p' -> para_dumpable c b ci p' = true.
+Proof.
+  intros Hd He Ha. destruct e as [key i r|key i sub v|key r|key r|key v|key]; cbn [apply_edit edit_ok] in *.
+  - destruct (para_get key p) as [[s|r0|rs]|] eqn:Hg; try discriminate.
+    destruct (dumpable_multi_of_get _ _ _ _ _ _ Hd Hg) as [order [Hl [Hne Hall]]].
+    unfold rec_ok in He. rewrite Hl in He.
+    destruct (set_nth i r rs) as [rs'|] eqn:Es; [|discriminate]. injection Ha as <-.
+    destruct (set_nth_forallb _ _ _ _ _ Hall He Es) as [H1 H2].
+    now apply (set_multi_dumpable c b ci p key order).
+  - destruct (para_get key p) as [[s|r0|rs]|] eqn:Hg; try discriminate.
+    + destruct (i <? length s)%nat; discriminate.
+    + destruct (dumpable_multi_of_get _ _ _ _ _ _ Hd Hg) as [order [Hl [Hne Hall]]].
+      destruct (nth_error rs i) as [r|] eqn:En; [|discriminate].
+      destruct (set_nth i (rec_set ci sub v r) rs) as [rs'|] eqn:Es; [|discriminate].
+      injection Ha as <-.
+      assert (Hr : rec_complete ci order r = true).
+      { rewrite forallb_forall in Hall. apply Hall. eapply nth_error_In; eauto. }
+      destruct (set_nth_forallb _ _ _ _ _ Hall (rec_set_complete ci order sub v r He Hr) Es) as [H1 H2].
+      now apply (set_multi_dumpable c b ci p key order).
+  - destruct (para_get key p) as [[s|r0|[|r1 rs]]|] eqn:Hg; try discriminate.
+    destruct (dumpable_multi_of_get _ _ _ _ _ _ Hd Hg) as [order [Hl [Hne Hall]]].
+    unfold rec_ok in He. rewrite Hl in He. injection Ha as <-.
+    cbn [forallb] in Hall. apply andb_true_iff in Hall. destruct Hall as [_ Hall].
+    apply (set_multi_dumpable c b ci p key order); auto.
+    + destruct rs; discriminate.
+    + rewrite forallb_app, Hall. cbn [forallb]. now rewrite He.
+  - destruct (para_get key p) as [[s|r0|rs]|] eqn:Hg; try discriminate.
+    destruct (dumpable_multi_of_get _ _ _ _ _ _ Hd Hg) as [order [Hl [Hne Hall]]].
+    unfold rec_ok in He. rewrite Hl in He. injection Ha as <-.
+    apply (set_multi_dumpable c b ci p key order); auto.
+    + destruct rs; discriminate.
+    + rewrite forallb_app, Hall. cbn [forallb]. now rewrite He.
+  - unfold build_step in Ha. cbn [bind fst snd] in Ha.
+    destruct (validate_input c key v); [|discriminate]. cbn [bind] in Ha. injection Ha as <-.
+    now apply para_set_dumpable.
+  - destruct (para_del key p) as [q|] eqn:E; [|discriminate]. injection Ha as <-.
+    now apply (para_del_dumpable c b ci key p).
+Qed.
+
+(** the states an object goes through under a list of edits (it stops at the first
+    edit that raises) *)
+Fixpoint states (c : cls) (ci : bool) (p : para) (es : list edit) : list para :=
+  p :: match es with
+       | [] => []
+       | e :: es' => match apply_edit c ci p e with
+                     | Ok p' => states c ci p' es'
+                     | Err _ => []
+                     end
+       end.
+
+(** Starting from a dumpable object, after ANY sequence of such edits — fields
+    deleted, fields added, records replaced, appended, rotated, values overwritten —
+    the object can be dumped: in every state it goes through. *)
+Lemma always_dumpable c b ci : forall es p q,
+  para_dumpable c b ci p = true -> forallb (edit_ok c b ci) es = true ->
+  In q (states c ci p es) -> is_ok (dump_para c b ci q) = true.
+Proof.
+  induction es as [|e es IH]; intros p q Hd Hes Hq.
+  - destruct Hq as [<-|[]]. now apply dump_para_total.
+  - cbn [forallb] in Hes. apply andb_true_iff in Hes. destruct Hes as [He Hes].
+    cbn [states] in Hq. destruct Hq as [<-|Hq]; [now apply dump_para_total|].
+    destruct (apply_edit c ci p e) as [p'|] eqn:Ea; [|contradiction].
+    apply (IH p' q); auto. now apply (edit_preserves_dumpable c b ci p e).
 Qed.
